@@ -58,6 +58,6 @@ m={"version":1,
  "checks":sorted(checks,key=lambda c:c["property_id"]),
  "notes":"./check <ID> rebuilds sim and the three workers from /repo's working tree (tools/build.sh), then runs the engine. Exit 0/1/2 = held / VIOLATION / harness error. Genuine defects found and repaired: see known_findings.json (fix commits in /repo: %s)."%", ".join(fix_commits),
  }
-if na: m["not_applicable"]=na
+m["not_applicable"]=na  # (empty: every property has a schedule, a fault or a history in it and is claimed)
 json.dump(m,open('/verif/MANIFEST.json','w'),indent=1)
 print("checks:",len(checks),"na:",len(na))
